@@ -432,7 +432,7 @@ pub fn run(ctx: &Ctx) -> (Report, PropertyMeta) {
     report.exhaustive_parts.push("all 12 x 12 SocketType::compatible queries".to_string());
     report.merge(r);
     // decoration: as-server, signature padding, extra properties, more identity lengths
-    let n = t.pick(40_000, 1_000_000);
+    let n = t.pick(200_000, 3_000_000);
     let r = run_random(
         ctx,
         "cell",
